@@ -480,6 +480,61 @@ func genDags(repo string) (string, error) {
 	}
 	sort.Strings(lits)
 	fmt.Fprintf(&b, "Definition gen_int_literals : list N := [%s].\n", strings.Join(lits, "; "))
+
+	// Graph has no state besides Nodes, and Reverse hands back a graph built in
+	// the call: a composite literal whose Nodes is a local made in the body; no
+	// assignment to a field of the receiver, no return of a receiver field.
+	{
+		var fields []string
+		for f := range p.structFields("Graph") {
+			fields = append(fields, coqStr(f))
+		}
+		sort.Strings(fields)
+		fmt.Fprintf(&b, "\nDefinition gen_graph_fields : list string := [%s].\n", strings.Join(fields, "; "))
+		fresh, why := false, "Graph.Reverse not found"
+		if fd := p.funcDecl("Graph", "Reverse"); fd != nil && fd.Body != nil {
+			rv := recvVar(fd)
+			fresh, why = true, ""
+			made := map[string]bool{}
+			ast.Inspect(fd.Body, func(n ast.Node) bool {
+				switch x := n.(type) {
+				case *ast.AssignStmt:
+					for i, l := range x.Lhs {
+						if id, ok := l.(*ast.Ident); ok && i < len(x.Rhs) {
+							if c, ok := x.Rhs[i].(*ast.CallExpr); ok {
+								if f, ok := c.Fun.(*ast.Ident); ok && f.Name == "make" {
+									made[id.Name] = true
+								}
+							}
+						}
+						if sel, ok := l.(*ast.SelectorExpr); ok {
+							if id, ok := sel.X.(*ast.Ident); ok && id.Name == rv {
+								fresh, why = false, "writes "+p.src(l)
+							}
+						}
+					}
+				case *ast.ReturnStmt:
+					ok := false
+					if len(x.Results) == 1 {
+						if u, isU := x.Results[0].(*ast.UnaryExpr); isU {
+							if cl, isC := u.X.(*ast.CompositeLit); isC && len(cl.Elts) == 1 {
+								if kv, isKV := cl.Elts[0].(*ast.KeyValueExpr); isKV {
+									if id, isID := kv.Value.(*ast.Ident); isID && made[id.Name] {
+										ok = true
+									}
+								}
+							}
+						}
+					}
+					if !ok {
+						fresh, why = false, "returns "+p.src(x)
+					}
+				}
+				return true
+			})
+		}
+		fmt.Fprintf(&b, "Definition gen_reverse_fresh : bool * string := (%v, %s).\n", fresh, coqStr(why))
+	}
 	return b.String(), nil
 }
 
